@@ -23,9 +23,27 @@ func init() {
 func mkScale(t Tok) scale.Quantitative {
 	switch t.Arr[0].Atom {
 	case "lin":
-		return &scale.Linear{Min: t.Arr[1].F(), Max: t.Arr[2].F(), Clamp: t.Arr[3].Int() == 1}
+		l := &scale.Linear{Min: t.Arr[1].F(), Max: t.Arr[2].F(), Clamp: t.Arr[3].Int() == 1}
+		if hasPast(l.Min) && finite(l.Min, l.Max) {
+			l.Min, l.Max = l.Max*2+1, l.Min-3
+			l.Map(0.5)
+			l.Unmap(0.5)
+			l.Min, l.Max = t.Arr[1].F(), t.Arr[2].F()
+		}
+		return l
 	case "log":
-		l := scale.Log{Min: t.Arr[1].F(), Max: t.Arr[2].F(), Base: t.Arr[3].Int()}
+		mn, mx, base := t.Arr[1].F(), t.Arr[2].F(), t.Arr[3].Int()
+		l := scale.Log{Min: mn, Max: mx, Base: base}
+		if hasPast(mn) && finite(mn, mx) {
+			// the scale has a past: made by NewLog for another domain of the same sign (and
+			// used), then its exported fields were assigned
+			if p, err := scale.NewLog(mn*3, mx/7, base); err == nil {
+				p.Map(mn)
+				p.Unmap(0.25)
+				p.Min, p.Max = mn, mx
+				l = p
+			}
+		}
 		l.SetClamp(t.Arr[4].Int() == 1)
 		return &l
 	}
